@@ -23,7 +23,7 @@ def margin_str(m):
 
 
 def concretise(c, rnd):
-    ids = ["a", "b", "d"]
+    ids = ["a", "b", "d", "e", "f"]
     els = []
     for i, b in enumerate(c["refs"]):
         rk = c["refkinds"]
